@@ -48,7 +48,7 @@ func (o goMapObject) toKey(name string) (key reflect.Value, err error) {
 }
 
 func (o goMapObject) toValue(value Value) reflect.Value {
-	reflectValue, err := value.toReflectValue(o.valueType)
+	reflectValue, err := value.toBridgedReflectValue(o.valueType)
 	if err != nil {
 		panic(conversionPanic(err))
 	}
